@@ -53,6 +53,16 @@ def main(tier):
                      "panic": bool(x["p1"]["panic"] or x["p2"]["panic"])}
             run.violation(facts, {"line": x})
         run.extra["rejected_lines"] = len(bad)
+        # ---- interoperability: MIT's client library against the simulated KDC, its AP-REQ against gokrb5's service
+        mi, mbad = mitcross.mit_client_interop(wd)
+        run.extra["interop_with_mit_client"] = mi
+        for x in mbad:
+            if x["mitStage"] < 7:
+                raise vlib.Inconclusive("MIT's client does not get through the simulated KDC (stage %d, %s): the simulator is not a conformant KDC" % (x["mitStage"], x["mitMsg"]))
+            run.violation({"interop": "mit-client", "et": x["et"], "accepted": x["accepted"], "panic": bool(x["panic"])}, {"line": x})
+        if mi.get("available"):
+            run.cov["evaluations"] += mi["scenarios"]
+            run.cov["traces_validated_against_impl"] += mi["scenarios"] - len(mbad)
         # ---- the system specification, bound end to end (real client, simulated KDC, real service, attacker moves)
         import sysk5
         info, slines, problem = sysk5.run_sys(run, quick=not run.thorough)
